@@ -12,7 +12,7 @@ import (
 )
 
 func init() {
-	Register(&Prop{ID: "C25", Gen: c25Gen, New: func() Runner { return c25Runner{} }})
+	Register(&Prop{ID: "C25", Gen: c25Gen, New: func() Runner { return &c25Runner{} }})
 }
 
 // c25ResetPoint returns the smallest n such that compressing data[:n] makes
@@ -320,7 +320,49 @@ func c25Gen(g *Gen) {
 	}
 }
 
-type c25Runner struct{}
+// c25Held is a result of Compress or Decompress that the caller keeps (block
+// headers and receipts keep compressed blooms) while later calls happen.
+type c25Held struct {
+	got  []byte // the slice exactly as returned
+	cp   []byte // copy taken at that moment
+	x    []byte // for Compress results: the input (nil for Decompress results)
+	what string
+}
+
+const c25MaxHeld = 8
+
+type c25Runner struct {
+	held []c25Held
+	n    int
+}
+
+func (r *c25Runner) hold(got, x []byte, what string) {
+	h := c25Held{got: got, cp: append([]byte{}, got...), x: x, what: fmt.Sprintf("%s of op %d", what, r.n)}
+	if len(r.held) >= c25MaxHeld {
+		copy(r.held, r.held[1:])
+		r.held = r.held[:len(r.held)-1]
+	}
+	r.held = append(r.held, h)
+}
+
+// verifyHeld: earlier results must be unchanged by later calls, and a held
+// compressed form must still decompress to its input.
+func (r *c25Runner) verifyHeld(o *Oracle) {
+	for i := range r.held {
+		h := &r.held[i]
+		o.Check(bytes.Equal(h.got, h.cp), "held-result-changed", "%s changed while held (len %d): now %s, was %s", h.what, len(h.cp), c25Short(h.got), c25Short(h.cp))
+		if h.x != nil {
+			o.Check(bytes.Equal(common.Decompress(h.got), h.x), "held-compressed-roundtrip", "%s no longer decompresses to its input %s", h.what, c25Short(h.x))
+		}
+	}
+}
+
+func (r *c25Runner) Step(t []string, o *Oracle) string {
+	r.n++
+	res := r.step(t, o)
+	r.verifyHeld(o)
+	return res
+}
 
 // c25FirstCode returns the first 9 bit code of a stream.
 func c25FirstCode(z []byte) int {
@@ -330,7 +372,7 @@ func c25FirstCode(z []byte) int {
 	return int(z[0])<<1 | int(z[1])>>7
 }
 
-func (c25Runner) Step(t []string, o *Oracle) string {
+func (r *c25Runner) step(t []string, o *Oracle) string {
 	if len(t) != 2 {
 		return "bad-op"
 	}
@@ -338,7 +380,11 @@ func (c25Runner) Step(t []string, o *Oracle) string {
 	case "c":
 		x := unhx(t[1])
 		z := common.Compress(x)
+		if len(x) > 0 {
+			r.hold(z, x, "Compress result")
+		}
 		back := common.Decompress(z)
+		r.hold(back, nil, "Decompress result")
 		rt := bytes.Equal(back, x)
 		o.Check(rt, "compress-roundtrip", "Decompress(Compress(x)) != x for len %d input %s", len(x), c25Short(x))
 		first := "none"
@@ -385,6 +431,7 @@ func (c25Runner) Step(t []string, o *Oracle) string {
 	case "d":
 		z := unhx(t[1])
 		out := common.Decompress(z)
+		r.hold(out, nil, "Decompress result")
 		switch {
 		case len(out) == 0:
 			o.Count("d-empty-out")
